@@ -15,7 +15,7 @@ open Png Png.Framing
 /-! ## fuel of the interlaced loop -/
 
 /-- the interlaced loop does not depend on its fuel (beyond `rowsLeft`) -/
-theorem frameInterlaced_fuel (cfg : Cfg) {t : TCfg} (ht : t.Ok) {i : Info} {stride : Nat} (bits : Nat) :
+theorem frameInterlaced_pfuel (cfg : Cfg) {t : TCfg} (ht : t.Ok) {i : Info} {stride : Nat} (bits : Nat) :
     ∀ (fuel fuel' : Nat) (r : R) (buf : Bytes), FIPre t i stride fuel r buf → FIPre t i stride fuel' r buf →
     bits = outBits t i r.flags →
     frameInterlaced cfg t stride bits fuel r buf = frameInterlaced cfg t stride bits fuel' r buf := by
@@ -130,7 +130,7 @@ theorem frameInto_ok_need (cfg : Cfg) (t : TCfg) {r rE : R} {i : Info} {buf B B'
   cases h
 
 /-- the row loop of `next_frame` under the invariant (both kinds of frame) -/
-theorem frameBody_spec (cfg : Cfg) {t : TCfg} (ht : t.Ok) {r : R} {i : Info} {buf : Bytes} (hI : Inv t r)
+theorem frameBody_pspec (cfg : Cfg) {t : TCfg} (ht : t.Ok) {r : R} {i : Info} {buf : Bytes} (hI : Inv t r)
     (hi : r.dec.info = some i) (hbuf : needOf t r i ≤ buf.length) :
     match frameBody cfg t r i.interlaced (outLineSize t i r.flags r.sub.width) (outBits t i r.flags) buf with
     | (r', buf', none) => Inv t r' ∧ Keep r r' ∧ r'.sub.cur = none ∧ buf'.length = buf.length
@@ -152,8 +152,8 @@ theorem frameInto_ok_body (cfg : Cfg) {t : TCfg} (ht : t.Ok) {r rE : R} {i : Inf
       finishDecoding cfg r2 = (rE, .ok ()) ∧ oi = outInfoOf t r i ∧ B' = B ∧ Inv t r2 ∧ Keep r r2 ∧ r2.sub.cur = none ∧
       B.length = buf.length := by
   have hneed := frameInto_ok_need cfg t hi h
-  rw [frameInto_eq cfg t buf hi hneed] at h
-  have hsp := frameBody_spec cfg ht hI hi hneed
+  rw [frameInto_peq cfg t buf hi hneed] at h
+  have hsp := frameBody_pspec cfg ht hI hi hneed
   generalize frameBody cfg t r i.interlaced (outLineSize t i r.flags r.sub.width) (outBits t i r.flags) buf = x at h hsp
   obtain ⟨r2, buf', oe⟩ := x
   cases oe with
@@ -183,7 +183,7 @@ theorem frameInto_of_body (cfg : Cfg) (t : TCfg) {r r2 rE : R} {i : Info} {buf B
     (hneed : needOf t r i ≤ buf.length)
     (hb : frameBody cfg t r i.interlaced (outLineSize t i r.flags r.sub.width) (outBits t i r.flags) buf = (r2, B, none))
     (hf : finishDecoding cfg r2 = (rE, .ok ())) : frameInto cfg t r buf = (rE, .frame (outInfoOf t r i) B, B) := by
-  rw [frameInto_eq cfg t buf hi hneed, hb]
+  rw [frameInto_peq cfg t buf hi hneed, hb]
   simp only
   rw [hf]
 
@@ -228,7 +228,7 @@ theorem frameInto_row (cfg : Cfg) {t : TCfg} (ht : t.Ok) {r rE : R} {i : Info} {
     (hW : frameInto cfg t r buf = (rE, .frame oi B, B)) :
     ∃ data r1 buf1, nextInterlacedRow cfg t r = (r1, .row ii data) ∧
       placeRow (outLineSize t i r.flags r.sub.width) (outBits t i r.flags) buf ii data = some buf1 ∧
-      ∃ rE1, frameInto cfg t r1 buf1 = (rE1, .frame oi B, B) ∧ Sim False rE rE1 := by
+      ∃ rE1, frameInto cfg t r1 buf1 = (rE1, .frame oi B, B) ∧ PSim False rE rE1 := by
   obtain ⟨r2, hb, hf, rfl, _, _, _, _, _⟩ := frameInto_ok_body cfg ht hI hi hW
   have hneed := frameInto_ok_need cfg t hi hW
   cases hil : i.interlaced with
@@ -252,7 +252,7 @@ theorem frameInto_row (cfg : Cfg) {t : TCfg} (ht : t.Ok) {r rE : R} {i : Info} {
         simp only at hb'
         rw [hex] at hb'
         simp only at hb'
-        refine ⟨data, r1, buf', rfl, hex, rE, ?_, Sim.refl _ _⟩
+        refine ⟨data, r1, buf', rfl, hex, rE, ?_, PSim.refl _ _⟩
         have hi1 := hn.info
         have hneed1 : needOf t r1 i ≤ buf'.length := by rw [needOf_eq t i hk.flags, hbl]; exact hneed
         obtain ⟨g1, g2⟩ := frameBody_adam7 cfg ht hn.inv hi1 hil hneed1
@@ -262,7 +262,7 @@ theorem frameInto_row (cfg : Cfg) {t : TCfg} (ht : t.Ok) {r rE : R} {i : Info} {
         rw [← hn.st] at g1 g2
         have hbody : frameBody cfg t r1 i.interlaced (outLineSize t i r1.flags r1.sub.width) (outBits t i r1.flags) buf' =
             (r2, B, none) := by
-          rw [hil, ← hn.st, g1, frameInterlaced_fuel cfg ht _ _ (7 * r.sub.height + 7) r1 buf' g2 hn rfl, hk.flags]
+          rw [hil, ← hn.st, g1, frameInterlaced_pfuel cfg ht _ _ (7 * r.sub.height + 7) r1 buf' g2 hn rfl, hk.flags]
           exact hb'
         rw [frameInto_of_body cfg t hi1 hneed1 hbody hf, outInfoOf_eq t i hk.flags hw1 hh1]
       | noRow => simp only at hr; rw [hcur] at hr; cases hr.1
@@ -294,7 +294,7 @@ theorem frameInto_row (cfg : Cfg) {t : TCfg} (ht : t.Ok) {r rE : R} {i : Info} {
           obtain ⟨fn, hol, hka, hsa⟩ := f2.next cfg ht hx
           have hIs := hI.setScratch (outLineSize t i r.flags r.sub.width)
           have hs := nextRowImpl_sim cfg (b := False) False.elim (outLineSize t i r.flags r.sub.width)
-            (Sim.scratch r (outLineSize t i r.flags r.sub.width)) f2.rowPre hIs
+            (PSim.scratch r (outLineSize t i r.flags r.sub.width)) f2.rowPre hIs
           have e1 : rowlenOf i.color i.depth r.sub (.null k) = r.sub.rowlen := rfl
           rw [e1, hx] at hs
           cases hx' : nextRowImpl cfg t { r with scratchLen := outLineSize t i r.flags r.sub.width } r.sub.rowlen
@@ -352,7 +352,7 @@ theorem frameInto_row (cfg : Cfg) {t : TCfg} (ht : t.Ok) {r rE : R} {i : Info} {
 theorem frameInto_end (cfg : Cfg) {t : TCfg} (ht : t.Ok) {r rE : R} {i : Info} {buf B : Bytes} {oi : OutputInfo}
     (hI : Inv t r) (hi : r.dec.info = some i) (hcur : r.sub.cur = none)
     (hW : frameInto cfg t r buf = (rE, .frame oi B, B)) :
-    B = buf ∧ ∃ r1, nextInterlacedRow cfg t r = (r1, .noRow) ∧ Sim False rE r1 := by
+    B = buf ∧ ∃ r1, nextInterlacedRow cfg t r = (r1, .noRow) ∧ PSim False rE r1 := by
   obtain ⟨r2, hb, hf, rfl, _, _, _, _, _⟩ := frameInto_ok_body cfg ht hI hi hW
   have hneed := frameInto_ok_need cfg t hi hW
   have hrow : nextInterlacedRow cfg t r =
@@ -388,7 +388,7 @@ theorem frameInto_end (cfg : Cfg) {t : TCfg} (ht : t.Ok) {r rE : R} {i : Info} {
         have hsp := finishDecoding_spec cfg r1 hI1 (by rw [hs1]; exact hcur)
         rw [hf] at hsp
         have : rE = r1 := hsp.2.2.2.2.1 (by rw [hs1])
-        rw [this]; exact Sim.refl _ _
+        rw [this]; exact PSim.refl _ _
       | err c w => simp only at hb'; cases hb'
       | panic s => exact hr.elim
       | header => exact hr.elim
